@@ -467,7 +467,7 @@ def stringify_result(r, brackets_for_frac=False):
         return "\"" + r + "\""
     elif isinstance(r, Interval):
         a, b = stringify_result(r.a), stringify_result(r.b)
-        if brackets_for_frac and frac(a) > frac(b):
+        if brackets_for_frac and reads_back_as(a) > reads_back_as(b):
             # The text is going to be parsed again, and rounding a float
             # bound to the display precision has carried it across the other
             # bound ([1/3, 0.3333334] -> [1/3, 0.333333], which reads back as
@@ -478,6 +478,13 @@ def stringify_result(r, brackets_for_frac=False):
     elif isinstance(r, Instant):
         return "#" + str(r) + "#"
     return str(r)
+
+def reads_back_as(text):
+    """The value the tokeniser gives to the text of a number: a float
+    (the nearest one) when it has a decimal point, exact otherwise (1/3,
+    5e-05). [0.09999999, 1/10] is shown as [0.1, 1/10], and the float 0.1
+    is greater than 1/10."""
+    return float(text) if "." in text else frac(text)
 
 def approximate_frac(f):
     try:
